@@ -210,7 +210,10 @@ def work(ctx, tier):
             _jitter_case(ctx, viol, draws, name, f, fn, g, base, mx, attempt, prev, rng.choice(MODES), i)
 
         # ---------------------------------------------------------------- retry_after_or
-        HINTS = [None, math.nan, math.inf, -math.inf, -5.0, -0.0, 0.0, 1e-9, 0.5, 3.0, 120.0, 1e308, 1.7976931348623157e308, 5, 0, 10**18, 10**400]
+        from decimal import Decimal
+
+        HINTS = [None, math.nan, math.inf, -math.inf, -5.0, -0.0, 0.0, 1e-9, 0.5, 3.0, 120.0, 1e308, 1.7976931348623157e308, 5, 0, 10**18, 10**400,
+                 Decimal("2.5"), Fraction(5, 2), True]  # other real-number types an SDK may hand over (judged for totality and the cap)
         JIT = [0.0, 0.25, -1.0, 1e308, 1e-12, 5.0, math.inf]
         REM = [None, 0.0, 1e-9, 0.5, 1.0, 60.0, 1e308]
         FB = [0.0, 1.0, math.nan, math.inf, -math.inf, -3.0, 1e308, 7.5, 10**400, -(10**400), 7]  # incl. ints no float can hold
